@@ -187,3 +187,38 @@ Definition options_check (c : country) (o : options) (cfg : result cstate) : Z *
       end
     end
   end.
+
+(** ---------- the front end of a run: rp2_main parses (and computes) every asset before the first report generator
+    starts, inside one try/except that turns any exception into exit status 1.  [back] stands for everything after
+    parsing (tax computation and report generation, other layers); [workbook] maps a sheet name to its cell grid. *)
+Definition pcfg_of (s : cstate) (ts : list (str * ts_res)) : pcfg :=
+  {| pc_in := cs_in s; pc_out := cs_out s; pc_intra := cs_intra s; pc_assets := cs_assets s; pc_exchanges := cs_exchanges s;
+     pc_holders := cs_holders s; pc_ts := ts |}.
+
+Fixpoint parse_all (cfg : pcfg) (assets : list str) (workbook : str -> option (list (list cell))) (counter : Z)
+  : result (list (str * parsed)) :=
+  match assets with
+  | [] => Ok []
+  | a :: rest =>
+    match workbook a with
+    | None => Err EValue                                   (* sheet does not exist *)
+    | Some rows =>
+      match parse_sheet cfg a counter rows with
+      | Err e => Err e
+      | Ok p => match parse_all cfg rest workbook (pa_counter p) with Err e => Err e | Ok ps => Ok ((a, p) :: ps) end
+      end
+    end
+  end.
+
+Definition front_end (c : country) (o : options) (secs : list (str * list (str * str))) (ts : list (str * ts_res))
+  (workbook : str -> option (list (list cell))) (back : list (str * parsed) -> Z * list str) : Z * list str :=
+  let cfg := validate_config secs in
+  let '(code, assets) := options_check c o cfg in
+  if negb (code =? 0) then (code, []) else
+  match cfg with
+  | Err _ => (1, [])
+  | Ok s => match parse_all (pcfg_of s ts) assets workbook 0 with
+            | Err _ => (1, [])
+            | Ok ps => back ps
+            end
+  end.
